@@ -8,7 +8,8 @@ import vcoq
 import vparse
 
 CLASSES = {1: "undeclared", 2: "port-undeclared", 3: "undefined-module", 4: "port-count", 5: "port-name",
-           6: "procedural-assignment-to-net", 7: "continuous-assignment-to-register", 8: "multiple-drivers"}
+           6: "procedural-assignment-to-net", 7: "continuous-assignment-to-register", 8: "multiple-drivers",
+           9: "declared-twice", 10: "implicit-one-bit-net-on-a-vector-port"}
 
 # opcodes usable without shared objects / external tools, grouped
 BASIC = ["add", "and", "clr", "cpy", "dec", "inc", "j", "jz", "mult", "nop", "not", "or", "rset", "sub", "xor", "nand", "nor", "xnor",
